@@ -694,6 +694,10 @@ func init() {
 		return i.b.BV(t.sort, i.concretize(t, "vndConcretize"))
 	}
 	vndIntrinsics["vndConcretizeByte"] = vndIntrinsics["vndConcretize"]
+	vndIntrinsics["vndGOMAXPROCS"] = func(fr *frame, args []value) value {
+		fr.i.gomaxprocs = int(fr.i.concInt(args[0], "vndGOMAXPROCS"))
+		return nil
+	}
 	vndIntrinsics["vndMapOrderNondet"] = func(fr *frame, args []value) value {
 		fr.i.ex.mapOrderNondet = args[0].(*Term).ConstBool()
 		return nil
@@ -982,6 +986,8 @@ func (ex *Explorer) runPath(it *workItem) (forks [][]decision) {
 	ex.auxN = 0
 	ex.opaqueFmt = 0
 	ex.mapOrderNondet = false
+	i.gomaxprocs = 0
+	i.goDepth = 0
 	ex.files = nil
 	ex.hashUF = false
 	ex.haveModel = false
@@ -1051,7 +1057,7 @@ func (ex *Explorer) runPath(it *workItem) (forks [][]decision) {
 		j.Pruned++
 	case "deadline":
 		j.Truncated = true
-	case "steps", "depth":
+	case "steps", "depth", "deadlock":
 		j.StepsOut++
 		j.Unsupported[outcome+": "+msg]++
 	case "panic":
@@ -1073,6 +1079,9 @@ func (ex *Explorer) runPath(it *workItem) (forks [][]decision) {
 	j.Wall = time.Since(j.Started)
 	j.mu.Unlock()
 
+	if outcome == "deadlock" && j.HangIsViolation {
+		outcome = "steps" // a deadlock of the main goroutine is non-termination
+	}
 	if outcome == "panic" || (outcome == "steps" && j.HangIsViolation) {
 		// An escaped panic (or a non-terminating path where termination is
 		// part of the property) is a violation candidate: find inputs.
